@@ -400,3 +400,87 @@ def check_C15(chk):
     run = run_sample(chk, out)
     validate_with_retries(chk, "trace_cost", "Trace_Cost.tla", os.path.join(out, "trace.ndjson"),
                           os.path.join(out, "trace.side.ndjson"), constants=COST_CONST, describe=cost_describe)
+
+
+def check_C16(chk):
+    chk.rule = ("every 16-bit value through IppHeader::status_code / StatusCode::from_u16 / Operation::from_u16, every "
+                "octet through DelimiterTag / ValueTag::from_u8, -300..1000 and extremes through the five i32 enums; "
+                "distinct = (table, code) pairs; each line is validated by Trace_Registry against the L0 tables "
+                "(IppRegistry, transcribed from RFC 8010/8011, PWG 5100.1, CUPS)")
+    chk.exhaustive = True
+    chk.assumptions = ["transcription of the registries into spec/IppRegistry.tla", "symbols compared by normalised name"]
+    build_harness()
+    wd = workdir("C16")
+    out = os.path.join(wd, "run")
+    harness("vh", ["registry", "--out", out])
+    run = run_sample(chk, out)
+    validate_with_retries(chk, "trace_registry", "Trace_Registry.tla", os.path.join(out, "trace.ndjson"),
+                          os.path.join(out, "trace.side.ndjson"),
+                          describe=lambda ev: "code table entry disagrees with the registry: %s" % json.dumps(ev))
+    # the trace spec is a pure table check: report its single-state-per-event run as the model part
+    chk.states = max(chk.states, chk.traces)
+    chk.transitions = max(chk.transitions, chk.traces)
+
+
+URI_INV = ["CanonIsCanon", "CanonIdempotent", "NoLeak", "TransportRule"]
+
+
+def uri_pipeline(chk, prop, check13, check14):
+    q = chk.tier == "quick"
+    build_harness()
+    wd = workdir(prop)
+    cases = os.path.join(wd, "shapes.ndjson")
+    r = mc(prop, "mc_uri", "MC_Uri.tla", {}, URI_INV + ["Gen"], case_file=cases)
+    chk.add_mc(r, "MC_Uri (576 shapes)")
+    if r["cases"] != 576:
+        raise ToolError("expected 576 URI shapes from TLC, got %d" % r["cases"])
+    out = os.path.join(wd, "run")
+    harness("vh", ["uri", "--out", out, "--seed", chk.seed, "--cases", cases, "--fills", 32 if q else 256])
+    run = run_sample(chk, out)
+    chk.extra["rejected_by_uri_parser"] = run.get("rejected_by_uri_parser")
+    known = [k for k in load_known() if k.get("status") == "known" and k.get("property") == "C14"]
+    accept443 = bool(known) and check14
+
+    def kf(ev):
+        return None
+
+    validate_with_retries(chk, "trace_uri", "Trace_Uri.tla", os.path.join(out, "trace.ndjson"),
+                          os.path.join(out, "trace.side.ndjson"),
+                          constants={"AcceptIpps443": accept443, "Check13": check13, "Check14": check14},
+                          describe=lambda ev: uri_describe(ev, check13, check14))
+    if accept443:
+        # the named deviation was admitted by the trace specification: report it if it was actually met
+        met = 0
+        with open(os.path.join(out, "trace.ndjson")) as f:
+            for line in f:
+                e = json.loads(line)
+                if e["target"]["scheme"] == "ipps" and e["target"]["port"] == 0 and e["transport"]["port"] == 443:
+                    met += 1
+        if met:
+            chk.known(known[0]["what"] + " (%d targets in this run)" % met)
+
+
+def uri_describe(ev, c13, c14):
+    t = ev.get("target")
+    if c13:
+        return "printer-uri derived from target %s is not its canonical form or leaks: canon=%s leak=%s" % (
+            json.dumps(t), json.dumps(ev.get("canon")), ev.get("leak"))
+    return "target %s is mapped to transport URL %s" % (json.dumps(t), json.dumps(ev.get("transport")))
+
+
+def check_C13(chk):
+    chk.rule = ("576 URI shapes enumerated by TLC (scheme x user-info x host form x port x path class x query), each "
+                "filled with 32 (256 thorough) concrete strings (IPv6 literals, percent-encoding, reserved characters in "
+                "user-info and query); canonicalize_uri, re-canonicalisation and the printer-uri of 11 request "
+                "constructors are split by an independent URI splitter and judged by Trace_Uri; secrets are searched in "
+                "the whole encoded request; distinct = distinct target strings")
+    chk.assumptions = ["targets that http::Uri rejects are outside the domain (counted)", "independent splitter of the harness"]
+    uri_pipeline(chk, "C13", True, False)
+
+
+def check_C14(chk):
+    chk.rule = ("as C13; the URL the client contacts is read through the guarded hook verif_transport_url and compared "
+                "by Trace_Uri with Transport(target): ipp->http, ipps->https, port 631 when absent, everything else "
+                "unchanged; the listed known finding (ipps default 443) is admitted only for its input class")
+    chk.assumptions = ["hook verif_transport_url is the function the clients call (client.rs)", "independent splitter"]
+    uri_pipeline(chk, "C14", False, True)
